@@ -6,8 +6,9 @@
    the task kernel of the library being a one-dimensional SquareExponential on the task cost) has PSD Gram matrices whenever the physical
    Gram matrix is PSD — no factor of the physical matrix is required — and unconditionally when the physical kernel is SquareExponential.
    Proof (Proofs/SEPsd.v): exp(-|u_a-u_b|^2/2) = g_a exp(<u_a,u_b>) g_b, exp = limit of its series, <u_a,u_b> has the factor u,
-   Hadamard.hadamard_psd; no Bochner, no Schoenberg.  The length scales need not be positive for these statements (x / 0 is a real number
-   in the model and the symmetric form divides before subtracting); the hypothesis is kept where the library guarantees it.
+   Hadamard.hadamard_psd; no Bochner, no Schoenberg.  The guard "all length scales positive" (what the library enforces, C03_hyper_rejects)
+   is stated in every theorem although the proofs do not use it: a negative scale gives the same kernel, and at ls k = 0 the
+   statement would only be about Coq's total division, not about the library (see C03_se_gram_psd_any_ls).
    NOT covered: the Matern kernels C0, C2, C4 — PSD of their n x n Gram matrices stays a hypothesis decided by the eigenvalue search.
    Only statements + exact + Print Assumptions here. *)
 From Coq Require Import Reals Arith Lra.
@@ -21,7 +22,8 @@ Theorem C03_se_gram_psd n dim xs ls lsq lcu alpha noise :
 Proof. exact (SE_sym_gram_psd n dim xs ls lsq lcu alpha noise). Qed.
 Print Assumptions C03_se_gram_psd.
 
-(* the same without any condition on the length scales *)
+(* remark: the guard on the length scales is not used (l and -l give the same kernel; at l = 0 this is a fact about Coq's total
+   division only and says nothing about the library, which rejects such hyperparameters) *)
 Theorem C03_se_gram_psd_any_ls n dim xs ls lsq lcu alpha noise :
   0 <= alpha -> (forall j, 0 <= noise j) ->
   psdR n (fun a b => SquareExponential.kernel_matrix_sym dim xs noise ls lsq lcu alpha a b).
@@ -30,9 +32,9 @@ Print Assumptions C03_se_gram_psd_any_ls.
 
 (* stronger: the entrywise product of the SE Gram matrix with any PSD matrix B is PSD *)
 Theorem C03_se_gram_schur_multiplier n dim xs ls lsq lcu alpha noise (B : nat -> nat -> R) :
-  0 <= alpha -> (forall j, 0 <= noise j) -> psdR n B ->
+  (forall k, 0 < ls k) -> 0 <= alpha -> (forall j, 0 <= noise j) -> psdR n B ->
   psdR n (fun a b => SquareExponential.kernel_matrix_sym dim xs noise ls lsq lcu alpha a b * B a b).
-Proof. exact (fun Ha Hn => SE_sym_gram_schur n dim xs noise ls lsq lcu alpha Ha Hn B). Qed.
+Proof. exact (fun _ Ha Hn => SE_sym_gram_schur n dim xs noise ls lsq lcu alpha Ha Hn B). Qed.
 Print Assumptions C03_se_gram_schur_multiplier.
 
 (* build_kernel_matrix(points_sampled, points_to_sample = the same points): the clamped-expansion path *)
@@ -58,36 +60,36 @@ Print Assumptions C03_se_partial_sums_psd.
 (* multitask kernel, task factor = SquareExponential on the task coordinates ts (dimt = 1 in the library): PSD as soon as the physical
    Gram matrix P is PSD.  This discharges the hypothesis "psdR n T" of C03_multitask_gram_psd AND weakens "P has a factor" to "P is PSD". *)
 Theorem C03_multitask_gram_psd_se_task n (P : nat -> nat -> R) dimt ts lst lsqt lcut alphat pg tg ph th :
-  psdR n P ->
+  (forall k, 0 < lst k) -> psdR n P ->
   psdR n (fun a b => GenMultitask._covariance (fun _ => P a b)
                        (fun i => SquareExponential._covariance dimt (fun _ => ts a) (fun _ => ts b) lst lsqt lcut alphat i) pg tg ph th 0%nat).
-Proof. exact (multitask_se_task_psd n P dimt ts lst lsqt lcut alphat pg tg ph th). Qed.
+Proof. exact (fun _ => multitask_se_task_psd n P dimt ts lst lsqt lcut alphat pg tg ph th). Qed.
 Print Assumptions C03_multitask_gram_psd_se_task.
 
 (* the same in the shape of C03_multitask_gram_psd (physical Gram matrix with a factor) *)
 Theorem C03_multitask_gram_psd_se_task_factored n m (P L : nat -> nat -> R) dimt ts lst lsqt lcut alphat pg tg ph th :
-  factored n m P L ->
+  (forall k, 0 < lst k) -> factored n m P L ->
   psdR n (fun a b => GenMultitask._covariance (fun _ => P a b)
                        (fun i => SquareExponential._covariance dimt (fun _ => ts a) (fun _ => ts b) lst lsqt lcut alphat i) pg tg ph th 0%nat).
-Proof. exact (multitask_se_task_factored n m P L dimt ts lst lsqt lcut alphat pg tg ph th). Qed.
+Proof. exact (fun _ => multitask_se_task_factored n m P L dimt ts lst lsqt lcut alphat pg tg ph th). Qed.
 Print Assumptions C03_multitask_gram_psd_se_task_factored.
 
 (* physical AND task kernel SquareExponential: unconditional (process variance alpha >= 0 on the product, as the library applies it) *)
 Theorem C03_multitask_gram_psd_se_se n dim xs ls lsq lcu alphap dimt ts lst lsqt lcut alphat alpha pg tg ph th :
-  0 <= alpha ->
+  (forall k, 0 < ls k) -> (forall k, 0 < lst k) -> 0 <= alpha ->
   psdR n (fun a b => alpha * GenMultitask._covariance
                        (fun i => SquareExponential._covariance dim (fun _ => xs a) (fun _ => xs b) ls lsq lcu alphap i)
                        (fun i => SquareExponential._covariance dimt (fun _ => ts a) (fun _ => ts b) lst lsqt lcut alphat i) pg tg ph th 0%nat).
-Proof. exact (multitask_se_se_psd n dim xs ls lsq lcu alphap dimt ts lst lsqt lcut alphat alpha pg tg ph th). Qed.
+Proof. exact (fun _ _ => multitask_se_se_psd n dim xs ls lsq lcu alphap dimt ts lst lsqt lcut alphat alpha pg tg ph th). Qed.
 Print Assumptions C03_multitask_gram_psd_se_se.
 
 (* the kernel-matrix path of the multitask kernel: physical kernel matrix (with noise) .* task kernel matrix *)
 Theorem C03_multitask_kernel_matrix_psd_se_se n dim xs noise ls lsq lcu alpha dimt ts lst lsqt lcut alphat pg tg ph th :
-  0 <= alpha -> 0 <= alphat -> (forall j, 0 <= noise j) ->
+  (forall k, 0 < ls k) -> (forall k, 0 < lst k) -> 0 <= alpha -> 0 <= alphat -> (forall j, 0 <= noise j) ->
   psdR n (fun a b => GenMultitask._covariance
                        (fun _ => SquareExponential.kernel_matrix_sym dim xs noise ls lsq lcu alpha a b)
                        (fun _ => SquareExponential.kernel_matrix_cross dimt ts ts lst lsqt lcut alphat a b) pg tg ph th 0%nat).
-Proof. exact (multitask_se_se_matrix_psd n dim xs noise ls lsq lcu alpha dimt ts lst lsqt lcut alphat pg tg ph th). Qed.
+Proof. exact (fun _ _ => multitask_se_se_matrix_psd n dim xs noise ls lsq lcu alpha dimt ts lst lsqt lcut alphat pg tg ph th). Qed.
 Print Assumptions C03_multitask_kernel_matrix_psd_se_se.
 
 (* the other reading of the same fact: SE x SE on disjoint coordinate blocks is ONE SquareExponential kernel on the concatenated
